@@ -594,6 +594,21 @@ func (r *Run) streamCase(v int, codec uint8, stream []byte, cuts []int, capacity
 	req := fmt.Sprintf("st.hist %d %d %s%s", codec, v, strings.Join(ops, " "), entries)
 	if len(ops) > 0 && !nonASCIIStream(v, stream) {
 		r.emit(req, strings.Join(outs, " ; "), true)
+		// the same run as one value of Model/Chunks.v run_chunks (the function C03's whole-run theorem is about)
+		var cs []string
+		for i := 0; i < len(ops); i += 2 {
+			cs = append(cs, strings.TrimPrefix(ops[i], "f0!"))
+		}
+		end := "NEED"
+		if failed != "" {
+			if f := strings.Fields(failed); len(f) >= 2 && f[0] == "ERR" {
+				end = f[0] + " " + f[1]
+			} else if len(f) >= 1 {
+				end = f[0]
+			}
+		}
+		r.emit(fmt.Sprintf("st.chunks %d %d %s%s", codec, v, strings.Join(cs, " "), entries),
+			fmt.Sprintf("%d [%s] %s q=%d", len(got), strings.Join(got, " / "), end, rb.Length()), true)
 	}
 	r.count("stream." + tag)
 	if want == nil {
